@@ -613,7 +613,7 @@ theorem quoteBy_contract {f : Char → Bool} (hf : SafeSet f) (s : Str) :
         obtain ⟨b, _, hb⟩ := ht
         simp [escOfByte] at hb
     | esc h1 h2 => simp [quoteTokBy] at ht
-    | stray => simp [quoteTokBy] at ht
+    | stray => simp [quoteTokBy, hf.pct_false] at ht
   · rw [quoteBy_tokens hf]
     intro hc
     exact canon_quoteToksBy hf (wf_tokens s) _ hc
@@ -679,7 +679,7 @@ theorem query_plus_kept (a b : Str) :
           simp only [quoteTokBy, hq, Bool.false_eq_true, if_false, h0]
           simp [hne]
       | esc h1 h2 => simp [quoteTokBy]
-      | stray => simp [quoteTokBy]
+      | stray => simp [quoteTokBy, safeSet_quoteSafeQ.pct_false]
   · exact safelyQuoteBy_append_sep ⟨by decide, by decide⟩ (by decide) a b
   · exact safelyQuoteBy_append_esc _ (by decide) (by decide) a b
 
